@@ -176,17 +176,16 @@ theorem care_closed_loop_lyapunov (A : Matrix n n K) (B : Matrix n m K) (Q : Mat
   exact hEq
 
 /-
-NOT PROVED (the plan's `care_stable_partial`): over `ℝ`/`ℂ`, if `X` is symmetric positive
-definite, `E = 1` and `W := Q + GᵀRG − SG − GᵀSᵀ` is positive definite, then every eigenvalue
-`λ` of `A − BG` has negative real part:
-    theorem care_stable_partial (A X W : Matrix n n ℂ) (hX : X.PosDef) (hW : W.PosDef)
-        (h : Aclᴴ * X + X * Acl + W = 0) (v : n → ℂ) (hv : v ≠ 0) (λ : ℂ)
-        (hev : Acl *ᵥ v = λ • v) : λ.re < 0
-(the Lyapunov argument `2 Re λ · v*Xv = −v*Wv` on an eigenvector).  `care_closed_loop_lyapunov`
-above is its algebraic half (the closed-loop Lyapunov equation holds for what `care` returns);
-the eigenvector half is standard and independent of python-control's code.  Stability of the
-returned closed loop is therefore obtained from SciPy's contract (`care_closed_loop_stable`) and
-checked numerically on every generated case.
+The plan's `care_stable_partial` (over `ℂ`: `X` positive definite, `E = 1`,
+`W := Q + GᵀRG − SG − GᵀSᵀ` positive definite ⟹ every eigenvalue of `A − BG` has negative real
+part) is now PROVED, at full strength and beyond (generalised `E`, semidefinite/observable
+variant, discrete time), in `Props/C10Stable.lean`: `lyap_eigen_re_neg`,
+`lyap_pencil_eigen_re_neg`, `dlyap_eigen_abs_lt_one`, `dare_closed_loop_lyapunov`, and for what
+the model's `care` / `dare` return `care_stable` / `dare_stable` (they combine
+`care_closed_loop_lyapunov` above with the Lyapunov argument on an eigenvector;
+`isCareSol_hurwitz` / `isDareSol_schur` instantiate the abstract `Stab` used here).  Stability
+when `X` is only semidefinite remains SciPy's contract (`care_closed_loop_stable`) and is checked
+numerically on every generated case.
 -/
 
 /-- `dare` returns (does not raise) exactly when `BᵀXB + R` is invertible for the solver's `X`. -/
